@@ -1006,7 +1006,11 @@ func (s *Service) ProcessRequest(ctx *core.Context, m map[string]interface{}, ou
 			return nil, err
 		}
 
-		_, take := m["take"]
+		// 'take' is a switch: "take":false doesn't take.
+		take, _, err := getBoolParam(m, "take", false)
+		if err != nil {
+			return nil, err
+		}
 		if take {
 			// Warning: Not (yet) atomic!
 			for _, found := range sr.Found {
